@@ -5,19 +5,23 @@ From UP Require Import Model.Common Model.Normalize Spec.NormalWf Spec.Unparse S
 (* normalization and make-owner *)
 (* [normalize mask u] (uriNormalizeSyntaxExMm, allocation succeeding) and [make_owner u] (uriMakeOwnerMm)
    keep [produced_wf] (Spec/Reread.v: the condition under which an object reads back as itself), for
-   every mask and every object, exactly outside two shapes in which the faithful model -- and the code --
-   lose it (known findings D7b and D14).  The shapes are boolean predicates on the INPUT object and the
-   mask (Proofs/RereadNormalize.v; [norm_segs u] is the segment list the PATH step computes: percent-
-   encodings fixed, dot segments removed, lone empty segment dropped):
+   every mask and every object, exactly outside one shape in which the faithful model -- and the code --
+   lose it (known finding D7b).  The shape is a boolean predicate on the INPUT object and the mask
+   (Proofs/RereadNormalize.v; [norm_segs u] is the segment list the PATH step computes: percent-encodings
+   fixed, dot segments removed, "." put in front of a path that would be written with "//" in front, lone
+   empty segment dropped):
 
      exposes_colon mask u  = bit mask M_PATH && relative_ref u
                              && (the first segment of norm_segs u contains ':')                  D7b
-     exposes_dslash mask u = bit mask M_PATH && negb (is_host_set u)
-                             && (the text "/"-if-absolutePath ++ join_slash (norm_segs u) begins with "//")   D14
 
-   [rt_colon v], [rt_dslash v] are the shapes gen/c07.py tests on a produced object before it may attribute
-   a read-back failure to a listed finding (c08_rel_exposes_colon: no host, no scheme, not absolutePath,
-   first segment contains ':'; c08_abs_exposes_dslash: no host, path text begins with "//").
+   A second shape of earlier versions (D14: no host and the path text after dot removal begins with "//",
+   "/..//." -> "//") was repaired in uriNormalizeSyntaxEngine (it calls uriFixAmbiguity now):
+   C07_normalize_no_dslash_runtime_shape says that no normalized object has it, and its witnesses are positive
+   examples (C07_normalize_dslash_guarded).
+
+   [rt_colon v], [rt_dslash v] are shapes of a produced object (no host, no scheme, not absolutePath,
+   first segment contains ':' -- gen/c07.py tests it before it may attribute a read-back failure to the listed
+   finding c08_rel_exposes_colon; no host, path text begins with "//").
    [chars_part u] is every clause of [produced_wf u] but [path_unambiguous u]. *)
 
 (* N1: character classes, host fields, authority clause: kept for every mask, no carve-out *)
@@ -31,21 +35,21 @@ Theorem C07_normalize_ipfuture_lowercase : forall h,
 Proof. exact lowercase_ipfuture. Qed.
 Print Assumptions C07_normalize_ipfuture_lowercase.
 
-(* N2: the path stays unambiguous iff neither carve-out applies *)
+(* N2: the path stays unambiguous iff the carve-out does not apply *)
 Theorem C07_normalize_keeps_unambiguous : forall mask u, produced_wf u ->
-  (path_unambiguous (normalize mask u) <-> exposes_colon mask u = false /\ exposes_dslash mask u = false).
+  (path_unambiguous (normalize mask u) <-> exposes_colon mask u = false).
 Proof. exact normalize_keeps_unambiguous. Qed.
 Print Assumptions C07_normalize_keeps_unambiguous.
 
 (* N3 *)
 Theorem C07_normalize_produced_wf : forall mask u, produced_wf u ->
-  exposes_colon mask u = false -> exposes_dslash mask u = false -> produced_wf (normalize mask u).
+  exposes_colon mask u = false -> produced_wf (normalize mask u).
 Proof. exact normalize_produced_wf. Qed.
 Print Assumptions C07_normalize_produced_wf.
 
-(* ... and the carve-outs are exact: inside either shape the result is not [produced_wf] *)
+(* ... and the carve-out is exact: inside the shape the result is not [produced_wf] *)
 Theorem C07_normalize_produced_wf_iff : forall mask u, produced_wf u ->
-  (produced_wf (normalize mask u) <-> exposes_colon mask u = false /\ exposes_dslash mask u = false).
+  (produced_wf (normalize mask u) <-> exposes_colon mask u = false).
 Proof. exact normalize_produced_wf_iff. Qed.
 Print Assumptions C07_normalize_produced_wf_iff.
 
@@ -53,36 +57,39 @@ Theorem C07_make_owner_produced_wf : forall u, produced_wf u -> produced_wf (mak
 Proof. exact make_owner_produced_wf. Qed.
 Print Assumptions C07_make_owner_produced_wf.
 
-(* each carve-out is needed.  D7b: a/../b:c -> b:c *)
+(* the carve-out is needed.  D7b: a/../b:c -> b:c *)
 Theorem C07_normalize_exposes_colon_refuted :
-  produced_wf wit_colon /\ exposes_dslash 8 wit_colon = false /\ exposes_dslash 63 wit_colon = false
+  produced_wf wit_colon
   /\ exposes_colon 8 wit_colon = true
   /\ pathSegs (normalize 8 wit_colon) = [[98; 58; 99]]%N
   /\ ~ produced_wf (normalize 8 wit_colon) /\ ~ produced_wf (normalize 63 wit_colon).
 Proof. exact exposes_colon_refuted. Qed.
 Print Assumptions C07_normalize_exposes_colon_refuted.
 
-(* D14: /..//. -> //   s:/..//. -> s://   a/..///b -> //b *)
-Theorem C07_normalize_exposes_dslash_refuted :
+(* the witnesses of the repaired finding D14 (they gave "//", "s://", "//b", none [produced_wf]):
+   /..//. -> /.//   s:/..//. -> s:/.//   a/..///b -> .///b ; the guard segment "." is in front of the empty
+   one, the path text does not begin with "//", the results are [produced_wf] *)
+Theorem C07_normalize_dslash_guarded :
   forall w, In w [wit_dslash; wit_dslash_scheme; wit_dslash_rel] ->
   produced_wf w /\ exposes_colon 8 w = false /\ exposes_colon 63 w = false
-  /\ exposes_dslash 8 w = true
-  /\ head_is 47 (path_text (normalize 8 w)) && head_is 47 (tl (path_text (normalize 8 w))) = true
-  /\ ~ produced_wf (normalize 8 w) /\ ~ produced_wf (normalize 63 w).
-Proof. exact exposes_dslash_refuted. Qed.
-Print Assumptions C07_normalize_exposes_dslash_refuted.
+  /\ match pathSegs (normalize 8 w) with [46%N] :: [] :: _ => True | _ => False end
+  /\ head_is 47 (path_text (normalize 8 w)) && head_is 47 (tl (path_text (normalize 8 w))) = false
+  /\ produced_wf (normalize 8 w) /\ produced_wf (normalize 63 w).
+Proof. exact dslash_guarded. Qed.
+Print Assumptions C07_normalize_dslash_guarded.
 
-(* N4: the carve-outs are exactly the run-time shapes of the result, so a read-back failure of a
-   normalized object outside these shapes can never be excused as a known finding *)
+(* N4: the carve-out is exactly the run-time shape of the result, so a read-back failure of a
+   normalized object outside this shape can never be excused as a known finding *)
 Theorem C07_normalize_colon_is_runtime_shape : forall mask u, produced_wf u ->
   exposes_colon mask u = rt_colon (normalize mask u).
 Proof. exact exposes_colon_is_rt_colon. Qed.
 Print Assumptions C07_normalize_colon_is_runtime_shape.
 
-Theorem C07_normalize_dslash_is_runtime_shape : forall mask u, produced_wf u ->
-  exposes_dslash mask u = rt_dslash (normalize mask u).
-Proof. exact exposes_dslash_is_rt_dslash. Qed.
-Print Assumptions C07_normalize_dslash_is_runtime_shape.
+(* the run-time shape of the repaired finding D14 (no host, path text begins with "//") is never produced *)
+Theorem C07_normalize_no_dslash_runtime_shape : forall mask u, produced_wf u ->
+  rt_dslash (normalize mask u) = false.
+Proof. exact normalize_no_dslash. Qed.
+Print Assumptions C07_normalize_no_dslash_runtime_shape.
 
 (* for any object whose segments contain no '/', [path_unambiguous] = neither run-time shape *)
 Theorem C07_normalize_unambiguous_is_no_runtime_shape : forall v,
@@ -91,22 +98,22 @@ Theorem C07_normalize_unambiguous_is_no_runtime_shape : forall v,
 Proof. exact unambiguous_iff_rt. Qed.
 Print Assumptions C07_normalize_unambiguous_is_no_runtime_shape.
 
-(* D14 on segments: with a leading "/", an empty first segment followed by another one; without, two
-   empty segments followed by a third *)
-Theorem C07_normalize_dslash_on_segments : forall mask u, produced_wf u ->
-  exposes_dslash mask u
-  = bit mask M_PATH && negb (is_host_set u) && dslash_shape (absolutePath u) (map seg_empty (norm_segs u)).
-Proof. exact exposes_dslash_segments. Qed.
-Print Assumptions C07_normalize_dslash_on_segments.
+(* the same on segments, for every object: the "//" shape -- with a leading "/", an empty first segment
+   followed by another one; without, two empty segments followed by a third -- is not what the PATH step
+   computes for a host-less object *)
+Theorem C07_normalize_no_dslash_on_segments : forall u, is_host_set u = false ->
+  dslash_shape (absolutePath u) (map seg_empty (norm_segs u)) = false.
+Proof. exact norm_segs_no_dslash_shape. Qed.
+Print Assumptions C07_normalize_no_dslash_on_segments.
 
-(* where no carve-out applies *)
+(* where the carve-out does not apply *)
 Theorem C07_normalize_no_carve_out_path_clear : forall mask u, bit mask M_PATH = false ->
-  exposes_colon mask u = false /\ exposes_dslash mask u = false.
+  exposes_colon mask u = false.
 Proof. exact exposes_none_path_clear. Qed.
 Print Assumptions C07_normalize_no_carve_out_path_clear.
 
 Theorem C07_normalize_no_carve_out_host : forall mask u, is_host_set u = true ->
-  exposes_colon mask u = false /\ exposes_dslash mask u = false.
+  exposes_colon mask u = false.
 Proof. exact exposes_none_host. Qed.
 Print Assumptions C07_normalize_no_carve_out_host.
 
@@ -123,7 +130,7 @@ Print Assumptions C07_normalize_no_colon_carve_out_absolute.
 (* a path that has no "." / ".." segment once its percent-encodings are fixed *)
 Theorem C07_normalize_no_carve_out_no_dots : forall mask u, produced_wf u ->
   no_dot_segs (map fix_pct (pathSegs u)) = true ->
-  exposes_colon mask u = false /\ exposes_dslash mask u = false.
+  exposes_colon mask u = false.
 Proof. exact exposes_none_no_dots. Qed.
 Print Assumptions C07_normalize_no_carve_out_no_dots.
 
@@ -138,9 +145,9 @@ Print Assumptions C07_normalize_produced_wfb_n_iff.
 Example C07_normalize_hypotheses_satisfiable :
   (let u := mkUri (Some [83]) (Some [85; 37; 55; 101]) (Some [72; 37; 52; 49]) None None None None
                  [[37; 50; 69]; [97]; [46; 46]; [98; 58; 99]] (Some [37; 55; 101]) (Some [37; 55; 69]) false false in
-  (produced_wf u /\ exposes_colon 63 u = false /\ exposes_dslash 63 u = false)
+  (produced_wf u /\ exposes_colon 63 u = false)
   /\ pathSegs (normalize 63 u) = [[98; 58; 99]]
   /\ hostText (normalize 63 u) = Some [104; 97])%N.
 Proof.
-  cbv zeta. split; [split; [apply produced_wfb_n_sound|split]|split]; vm_compute; reflexivity.
+  cbv zeta. split; [split; [apply produced_wfb_n_sound|]|split]; vm_compute; reflexivity.
 Qed.
